@@ -56,7 +56,24 @@ type Case struct {
 	// rps schedule was started in the past, find its overdue tokens that much later: a run that lasts longer than the 1 s
 	// flush period of the aggregators, with the discarded shots of all instances reported at full speed around the flush.
 	StartDelayMs int `json:"instances_start_after_ms,omitempty"`
+	// TargetBy (http, http/scenario): how the gun config names the target. "" = by IP (127.0.0.1:port); "name" = by host
+	// name (localhost:port) while the target listens; "name_late" = by host name while nothing listens on the target's port
+	// yet: the gun section is decoded, its attempt to pre-resolve the target is refused, so `dns-cache: true` (the default)
+	// stays in force and the clients dial through the DNS caching dialer; the target comes up before the pool is run (docs,
+	// PreResolveTargetAddr: "we should not fail shooting, we should try to connect on every shoot. DNS cache will save
+	// resolved addr after first successful connect"). With shared-client that dialer belongs to all instances at once.
+	TargetBy string `json:"target_named_by,omitempty"`
+	// NoKeepAlive (http, http/scenario): the gun option `disable-keep-alives: true` - every request dials.
+	NoKeepAlive bool `json:"disable_keep_alives,omitempty"`
+	// CloseEvery k > 0 (http, http/scenario): the target answers every k-th request with `Connection: close` and drops the
+	// connection, so the instance that shoots next on that client dials again while the others are shooting.
+	CloseEvery int `json:"target_closes_connection_every,omitempty"`
 }
+
+func (c Case) httpGun() bool { return c.Kind == kindHTTP || c.Kind == kindHTTPScen }
+
+// redials: connections are opened all through the run, not only by the first shots.
+func (c Case) redials() bool { return c.NoKeepAlive || c.CloseEvery > 0 }
 
 // stormTokens: a Behind whose overdue sections hold that many tokens or more is a storm of discarded shots (the instances do
 // nothing but acquire, give back and report for a while); defined with discard_overflow only - shot for real they would
@@ -268,6 +285,28 @@ func (c Case) sharedObjects() []string {
 	out := []string{"provider_queue", "aggregator_" + c.Agg}
 	if c.SharedClients > 0 {
 		out = append(out, "shared_client_"+c.Kind)
+	}
+	if c.httpGun() {
+		by := map[string]string{targetByIP: "ip", targetByName: "host_name_reachable_at_decode", targetByNameLate: "host_name_unreachable_at_decode"}[c.TargetBy]
+		out = append(out, "http_target_by_"+by)
+		if c.NoKeepAlive {
+			out = append(out, "http_keep_alives_disabled")
+		}
+		if c.CloseEvery > 0 {
+			out = append(out, "http_target_drops_connections")
+		}
+		if c.TargetBy == targetByNameLate {
+			// the DNS caching dialer (and the process-wide cache behind it) is what the clients dial through
+			out = append(out, "dns_caching_dialer_"+c.Kind)
+			if c.SharedClients > 0 {
+				out = append(out, "dns_caching_dialer_of_shared_client", "dns_caching_dialer_of_shared_client_"+c.Kind)
+				if c.redials() {
+					out = append(out, "dns_caching_dialer_of_shared_client_redialing")
+				}
+			} else if c.redials() {
+				out = append(out, "dns_caching_dialer_per_instance_redialing")
+			}
+		}
 	}
 	if p := c.Plain; p != nil {
 		switch {
@@ -739,6 +778,17 @@ func genCase(t *rapid.T, r *vf.Run) Case {
 	if c.StartDelayMs == 0 && rapid.IntRange(0, 19).Draw(t, "startDelay") == 0 {
 		c.StartDelayMs = rapid.IntRange(1, 40).Draw(t, "startDelayMs") // a short pause before the first instance
 	}
+	if c.httpGun() {
+		// how the gun config names the target (drawn last: the draws above keep their meaning for a given seed)
+		switch k := rapid.IntRange(0, 9).Draw(t, "targetBy"); {
+		case k < 4:
+			c.TargetBy = targetByNameLate
+		case k == 4 || k == 5:
+			c.TargetBy = targetByName
+		}
+		c.NoKeepAlive = rapid.IntRange(0, 9).Draw(t, "noKeepAlive") < 3
+		c.CloseEvery = rapid.SampledFrom([]int{0, 0, 0, 1, 2, 3, 5}).Draw(t, "closeEvery")
+	}
 	steer(&c, r)
 	return c
 }
@@ -815,6 +865,15 @@ func (c Case) validate() error {
 	}
 	if c.Instances < 1 || c.Shots < 1 {
 		return fmt.Errorf("instances and shots must be positive")
+	}
+	if c.TargetBy != targetByIP && c.TargetBy != targetByName && c.TargetBy != targetByNameLate {
+		return fmt.Errorf("the target is named by IP (\"\"), %q or %q", targetByName, targetByNameLate)
+	}
+	if !c.httpGun() && (c.TargetBy != "" || c.NoKeepAlive || c.CloseEvery != 0) {
+		return fmt.Errorf("target naming, disable-keep-alives and dropped connections are generated for the http guns only")
+	}
+	if c.CloseEvery < 0 {
+		return fmt.Errorf("the target closes the connection after every k-th answer, k >= 1 (0 = never)")
 	}
 	if b := c.Behind; b != nil {
 		if err := validateSections(b.Lead, "overdue"); err != nil {
